@@ -2,7 +2,7 @@
 # Mutation self-test for C17.  Usage: selftest/C17/run.sh [patch ...]   (default: all patches here)
 # Each patch is applied to a scratch copy of the REPAIRED tree ($BASE if given, else a temporary copy of
 # /repo with fixes/C17-0*.patch applied where they are not yet); the repo's own unit tests that touch angle_tools are run on the copy,
-# then ./check C17 --tier quick.  Expected: M* -> exit 1 with a replay, H* and harmless-* -> exit 0.
+# then ./check C17 --tier quick.  Expected: M* -> exit 1 with a replay, harmless-* -> exit 0 (the naming convention of tools/selftest.sh).
 V=$(cd "$(dirname "$0")/../.." && pwd)
 cd "$V"
 if [ -z "${BASE:-}" ]; then
